@@ -218,4 +218,89 @@ def points : Box → List (List Int)
     let tails := points rest
     (List.range (hi - lo + 1).toNat).flatMap fun (k : Nat) => tails.map fun t => (lo + Int.ofNat k) :: t
 
+/-! ## structural equality and the per-atom Heaviside partition (the repaired `partition_heaviside`) -/
+
+mutual
+/-- structural equality (sympy's `==` on the exported trees) -/
+def beq : E → E → Bool
+  | .num n d, .num n' d' => n == n' && d == d'
+  | .sym i, .sym j => i == j
+  | .add xs, .add ys => beqL xs ys
+  | .mul xs, .mul ys => beqL xs ys
+  | .pow b k, .pow b' k' => beq b b' && k == k'
+  | .max xs, .max ys => beqL xs ys
+  | .min xs, .min ys => beqL xs ys
+  | .ceil x, .ceil y => beq x y
+  | .floor x, .floor y => beq x y
+  | .heav x, .heav y => beq x y
+  | .dceil x, .dceil y => beq x y
+  | .did x, .did y => beq x y
+  | .opq t xs, .opq t' ys => t == t' && beqL xs ys
+  | _, _ => false
+def beqL : List E → List E → Bool
+  | [], [] => true
+  | x :: xs, y :: ys => beq x y && beqL xs ys
+  | _, _ => false
+end
+
+/-- append `x` unless an equal element is already there -/
+def addNew (acc : List E) (x : E) : List E := if acc.any (fun y => beq y x) then acc else acc ++ [x]
+
+mutual
+/-- the arguments of the distinct Heaviside terms of `f` (`f.atoms(Heaviside)`), in order of first occurrence;
+a Heaviside term nested inside another one's argument is not listed separately -/
+def heavArgs (acc : List E) : E → List E
+  | .num _ _ => acc
+  | .sym _ => acc
+  | .add xs => heavArgsL acc xs
+  | .mul xs => heavArgsL acc xs
+  | .pow b _ => heavArgs acc b
+  | .max xs => heavArgsL acc xs
+  | .min xs => heavArgsL acc xs
+  | .ceil x => heavArgs acc x
+  | .floor x => heavArgs acc x
+  | .heav x => addNew acc x
+  | .dceil x => heavArgs acc x
+  | .did x => heavArgs acc x
+  | .opq _ xs => heavArgsL acc xs
+def heavArgsL (acc : List E) : List E → List E
+  | [] => acc
+  | x :: xs => heavArgsL (heavArgs acc x) xs
+end
+
+mutual
+/-- `f.xreplace({Heaviside(x): v, …})` -/
+def replaceH (σ : List (E × Int)) : E → E
+  | .num n d => .num n d
+  | .sym i => .sym i
+  | .add xs => .add (replaceHL σ xs)
+  | .mul xs => .mul (replaceHL σ xs)
+  | .pow b k => .pow (replaceH σ b) k
+  | .max xs => .max (replaceHL σ xs)
+  | .min xs => .min (replaceHL σ xs)
+  | .ceil x => .ceil (replaceH σ x)
+  | .floor x => .floor (replaceH σ x)
+  | .heav x =>
+    match σ.find? (fun p => beq p.1 x) with
+    | some p => .num p.2 1
+    | none => .heav x
+  | .dceil x => .dceil (replaceH σ x)
+  | .did x => .did (replaceH σ x)
+  | .opq t xs => .opq t (replaceHL σ xs)
+def replaceHL (σ : List (E × Int)) : List E → List E
+  | [] => []
+  | x :: xs => replaceH σ x :: replaceHL σ xs
+end
+
+/-- `itertools.product((1, 0), repeat=k)` -/
+def assignments : Nat → List (List Int)
+  | 0 => [[]]
+  | k + 1 => (assignments k).flatMap fun t => [1 :: t, 0 :: t]
+
+/-- the repaired `partition_heaviside(f)` for a formula that has Heaviside terms: one formula per assignment of
+0 / 1 to every distinct Heaviside term. (The order of the parts only matters for which oracle queries get made.) -/
+def heavParts (f : E) : List E :=
+  let atoms := heavArgs [] f
+  (assignments atoms.length).map fun vs => replaceH (atoms.zip vs) f
+
 end AFV.Expr9
